@@ -660,3 +660,115 @@ pub(crate) mod verif_local {
         super::arm_comma(config, body, is_last)
     }
 }
+
+#[cfg(feature = "verif-hooks")]
+pub(crate) mod verif_local_braces {
+    use super::*;
+
+    /// What `rewrite_match_body` is handed and what it consults, for one arm body.
+    pub(crate) struct BodyProbe<'a> {
+        /// `flatten_arm_body(context, body, None)`
+        pub(crate) flat_none: (bool, &'a ast::Expr),
+        /// `flatten_arm_body(context, body, shape.offset_left_opt(..))` with the shape of the
+        /// first attempt (behind `pats_str` and ` => `)
+        pub(crate) flat_some: (bool, &'a ast::Expr),
+        /// `can_flatten_block_around_this(body)`
+        pub(crate) can_flatten: bool,
+        /// `block_can_be_flattened(context, body).is_some()`
+        pub(crate) can_be_flattened: bool,
+        /// `arm_comma(config, flattened body, is_last)`
+        pub(crate) comma: &'static str,
+        /// the shape of the first attempt exists
+        pub(crate) shape_ok: bool,
+        /// the first attempt (`format_expr` at the shape behind ` => `, collapsed), when the
+        /// shape exists, and its budget
+        pub(crate) orig: Option<(RewriteResult, usize)>,
+        /// the second attempt (`format_expr` on a line of its own, collapsed)
+        pub(crate) next: RewriteResult,
+        /// the text between the pattern and the body holds a comment
+        pub(crate) arrow_comment: bool,
+        /// `rewrite_match_body` itself
+        pub(crate) out: RewriteResult,
+    }
+
+    /// Runs `rewrite_match_body` on `body` behind the left-hand side `pats_str` and, with the
+    /// same arguments, the calls it makes to decide where the body goes.
+    pub(crate) fn probe_body<'a>(
+        context: &'a RewriteContext<'_>,
+        body: &'a ptr::P<ast::Expr>,
+        pats_str: &str,
+        shape: Shape,
+        has_guard: bool,
+        arrow_span: Span,
+        is_last: bool,
+    ) -> BodyProbe<'a> {
+        let opt_shape = shape.offset_left_opt(extra_offset(pats_str, shape) + 4);
+        let flat_none = flatten_arm_body(context, body, None);
+        let flat_some = flatten_arm_body(context, body, opt_shape);
+        let flat = flat_some.1;
+        let (is_block, is_empty) = if let ast::ExprKind::Block(ref block, _) = flat.kind {
+            (true, is_empty_block(context, block, Some(&flat.attrs)))
+        } else {
+            (false, false)
+        };
+        let comma = arm_comma(context.config, flat, is_last);
+        let orig_body_shape = opt_shape.and_then(|shape| shape.sub_width_opt(comma.len()));
+        let orig = orig_body_shape.map(|body_shape| {
+            (
+                nop_block_collapse(
+                    format_expr(flat, ExprType::Statement, context, body_shape),
+                    body_shape.width,
+                ),
+                body_shape.width,
+            )
+        });
+        let next_line_indent = if !is_block || is_empty {
+            shape.indent.block_indent(context.config)
+        } else {
+            shape.indent
+        };
+        let next_line_body_shape = Shape::indented(next_line_indent, context.config);
+        let next = nop_block_collapse(
+            format_expr(flat, ExprType::Statement, context, next_line_body_shape),
+            next_line_body_shape.width,
+        );
+        let arrow_snippet = context.snippet(arrow_span).trim();
+        let arrow_comment = arrow_snippet
+            .rfind("=>")
+            .map_or(false, |i| !arrow_snippet[i + 2..].trim().is_empty());
+        BodyProbe {
+            flat_none,
+            flat_some,
+            can_flatten: can_flatten_block_around_this(body),
+            can_be_flattened: block_can_be_flattened(context, body).is_some(),
+            comma,
+            shape_ok: orig_body_shape.is_some(),
+            orig,
+            next,
+            arrow_comment,
+            out: rewrite_match_body(
+                context, body, pats_str, shape, has_guard, arrow_span, is_last,
+            ),
+        }
+    }
+
+    /// `rewrite_match_arm`.
+    pub(crate) fn arm(
+        context: &RewriteContext<'_>,
+        arm: &ast::Arm,
+        shape: Shape,
+        is_last: bool,
+        has_leading_pipe: bool,
+    ) -> RewriteResult {
+        rewrite_match_arm(context, arm, shape, is_last, has_leading_pipe)
+    }
+
+    /// The width `rewrite_match_arm` takes off the pattern's shape for what follows the
+    /// pattern (` => {`, or ` => 'label: {`), as a function of the body.
+    pub(crate) fn pat_shape_overhead(body: &ast::Expr) -> usize {
+        match body.kind {
+            ast::ExprKind::Block(_, Some(label)) => 7 + label.ident.as_str().len(),
+            _ => 5,
+        }
+    }
+}
